@@ -131,6 +131,7 @@ type Ctx struct {
 	byName map[string]*Term
 	supp   map[*Term]int
 	tables map[*Term]Set256
+	varsets map[*Term][]uint64
 }
 
 func NewCtx() *Ctx {
@@ -1038,4 +1039,49 @@ func (c *Ctx) Table(t *Term) (v int, set Set256, ok bool) {
 	}
 	c.tables[t] = set
 	return v, set, true
+}
+
+// VarSet returns the set of variable indices t depends on, as a bitset (cached).
+func (c *Ctx) VarSet(t *Term) []uint64 {
+	if t.Op == OpConst {
+		return nil
+	}
+	if c.varsets == nil {
+		c.varsets = map[*Term][]uint64{}
+	}
+	if s, ok := c.varsets[t]; ok {
+		return s
+	}
+	var s []uint64
+	if t.Op == OpVar {
+		s = make([]uint64, t.VarIdx/64+1)
+		s[t.VarIdx/64] |= 1 << uint(t.VarIdx%64)
+	} else {
+		for i := 0; i < t.N; i++ {
+			a := c.VarSet(t.A[i])
+			if len(a) > len(s) {
+				s = append(s, make([]uint64, len(a)-len(s))...)
+			}
+			for j, w := range a {
+				s[j] |= w
+			}
+		}
+		// do not alias the child's slice when it was the only contributor
+		s = append([]uint64(nil), s...)
+	}
+	c.varsets[t] = s
+	return s
+}
+
+func HasVar(set []uint64, v int) bool {
+	return v/64 < len(set) && set[v/64]&(1<<uint(v%64)) != 0
+}
+
+func (s Set256) First() int {
+	for b := 0; b < 256; b++ {
+		if s.Has(b) {
+			return b
+		}
+	}
+	return -1
 }
